@@ -118,3 +118,30 @@ Proof.
   split; [intros v Hv; cbn in Hv; unfold c02t_roots; repeat (destruct v as [|v]; [cbn; tauto|]); cbn in Hv; exfalso; apply (Nat.nlt_0_r v); do 7 apply Nat.succ_lt_mono in Hv; exact Hv|].
   repeat split; vm_compute; reflexivity.
 Qed.
+
+(* =====================================================================================================================
+   APPENDED (IsoProofs*.v): the ISOMETRIC variant — supersedes the "NOT proved" notes above.
+     C02_iso_sufficient   the sufficiency premise holds for the isometric collection (Amaldi–Iuliano–Rizzi over the model's
+                          lexicographic shortest-path trees: every odd simple cycle has an odd isometric cycle no heavier,
+                          and the builder keeps a candidate for every isometric cycle; Properties_C14.v).
+     C02_iso_trees        NO premise: EVERY accepted run of mcb_sva_iso_trees — every resolution of the unstable std::sort —
+                          emitted a minimum cycle basis and returned its weight, and an accepted run exists. *)
+From Parmcb Require Import IsoProofsF1 IsoProofsF2.
+
+Theorem C02_iso_sufficient : C02_iso_sufficient_statement.
+Proof. exact iso_sufficient. Qed.
+Print Assumptions C02_iso_sufficient.
+
+Theorem C02_iso_trees : C02_iso_trees_statement.
+Proof. exact iso_C02_iso_trees. Qed.
+Print Assumptions C02_iso_trees.
+
+(* spelled out *)
+Theorem C02_iso_trees_explicit :
+  forall (g : graph) (wts : list Z) (roots picks : list nat),
+    simple_graph g -> positive_weights g wts -> (forall v, v < nv g -> In v roots) ->
+    (forall cycles total, mcb_sva_trees_accept_Z TbIso g wts roots picks cycles = Some total ->
+       min_cycle_basis g wts cycles /\ total = total_weight wts cycles) /\
+    (exists cycles total, mcb_sva_trees_accept_Z TbIso g wts roots picks cycles = Some total).
+Proof. exact iso_C02_iso_trees. Qed.
+Print Assumptions C02_iso_trees_explicit.
